@@ -251,7 +251,9 @@ class Concat(Expr):
                     else frame
                 )
                 for frame, cols in zip(self._frames, columns_frame)
-                if len(cols) > 0
+                # a frame without any of the requested columns still contributes
+                # its rows when stacking along the index
+                if len(cols) > 0 or (self.axis == 0 and frame.ndim == 2)
             ]
             result = type(self)(
                 self.join,
@@ -308,6 +310,11 @@ class StackPartition(Concat):
         return dsk
 
     def _lower(self):
+        return
+
+    def _simplify_up(self, parent, dependents):
+        # Concat's projection rule rebuilds the node with the parameters of the
+        # abstract Concat, which this lowered class does not have
         return
 
 
